@@ -632,4 +632,166 @@ theorem op_refine {P : Life → Prop} {cur : Life} (hP : P cur) :
           exact this
 end
 
+/-! ### top-level messages -/
+
+/-- between top-level messages (no message is executing): the persisted states show the spec
+    world, a contract with a tombstone is dead for every later message -/
+structure Inv (P : Life → Prop) (w : SWorld) (vm : VM) : Prop where
+  common : Common P w vm
+  doomed : ∀ a, w.doomed a = false
+  dead : ∀ a, w.dead a = (vm.actors a).tomb.isSome
+  deadStor : ∀ a, (vm.actors a).tomb.isSome = true → ∀ k, w.stor a k = 0
+  stor : ∀ a, (vm.actors a).tomb = none → ∀ k, w.stor a k = get (vm.actors a).slots k
+
+theorem Common.mono {P Q : Life → Prop} {w : SWorld} {vm : VM} (h : Common P w vm)
+    (hpq : ∀ l, P l → Q l) : Common Q w vm :=
+  ⟨h.bal, h.logs, fun a => ⟨fun t ht => hpq _ ((h.life a).tomb t ht), fun m l hl => hpq _ ((h.life a).tdata m l hl)⟩⟩
+
+theorem Inv.mono {P Q : Life → Prop} {w : SWorld} {vm : VM} (h : Inv P w vm)
+    (hpq : ∀ l, P l → Q l) : Inv Q w vm :=
+  ⟨h.common.mono hpq, h.doomed, h.dead, h.deadStor, h.stor⟩
+
+/-- start of a message with a fresh (origin, nonce): transient data of older messages is
+    invisible, older tombstones mean "dead" -/
+theorem inv_to_agree {P : Life → Prop} {w : SWorld} {vm : VM} (h : Inv P w vm) (cur : Life)
+    (hfresh : ¬ P cur) (entry value : Nat) :
+    Agree (fun l => P l ∨ l = cur) cur
+      { w with trans := fun _ _ => 0, bal := credit w.bal entry value }
+      { vm with bal := credit vm.bal entry value } := by
+  refine ⟨⟨by simp [h.common.bal], h.common.logs, fun a => ((h.common.mono (fun l hl => Or.inl hl)).life a)⟩, fun a => ?_⟩
+  have hne : ∀ l, P l → l ≠ cur := fun l hl he => hfresh (he ▸ hl)
+  have hdead : isDead cur (vm.actors a) = (vm.actors a).tomb.isSome := by
+    unfold isDead
+    cases ht : (vm.actors a).tomb with
+    | none => rfl
+    | some t => simpa using hne t ((h.common.life a).tomb t ht)
+  refine ⟨by simpa [hdead] using h.dead a, fun hd k => ?_, fun hd k => ?_, fun hd k => ?_, fun hd => ?_⟩
+  · exact h.deadStor a (by rw [← hdead]; exact hd) k
+  · have : (vm.actors a).tomb = none := by
+      rw [hdead] at hd; simpa using hd
+    exact h.stor a this k
+  · show 0 = get (tview cur (vm.actors a).tdata) k
+    unfold tview
+    cases htd : (vm.actors a).tdata with
+    | none => rfl
+    | some p =>
+      obtain ⟨m, l⟩ := p
+      have := hne l ((h.common.life a).tdata m l htd)
+      simp [this, get_nil]
+  · have : (vm.actors a).tomb = none := by
+      rw [hdead] at hd; simpa using hd
+    simpa [this] using h.doomed a
+
+/-- end of a successful message -/
+theorem agree_to_inv {P : Life → Prop} {cur : Life} {w : SWorld} {vm : VM} (h : Agree P cur w vm) :
+    Inv P w.finalize vm := by
+  refine ⟨⟨h.common.bal, h.common.logs, h.common.life⟩, fun _ => rfl, fun a => ?_, fun a ht k => ?_, fun a ht k => ?_⟩
+  · have ha := h.at_ a
+    show (w.dead a || w.doomed a) = _
+    cases ht : (vm.actors a).tomb with
+    | none =>
+      have hd : isDead cur (vm.actors a) = false := by simp [isDead, ht]
+      rw [ha.dead, ha.doomed hd, hd]; simp [ht]
+    | some t =>
+      by_cases hc : t = cur
+      · have hd : isDead cur (vm.actors a) = false := by simp [isDead, ht, hc]
+        rw [ha.dead, ha.doomed hd, hd]; simp [ht, hc]
+      · have hd : isDead cur (vm.actors a) = true := by simp [isDead, ht, hc]
+        rw [ha.dead, hd]; simp
+  · have ha := h.at_ a
+    show (if w.doomed a then 0 else w.stor a k) = 0
+    by_cases hdm : w.doomed a = true
+    · simp [hdm]
+    · simp only [hdm, Bool.false_eq_true, if_false]
+      cases hd : isDead cur (vm.actors a) with
+      | true => exact ha.deadStor hd k
+      | false =>
+        have := ha.doomed hd
+        rcases tomb_of_isDead_false hd with h1 | h1
+        · rw [h1] at ht; cases ht
+        · rw [h1] at this; simp at this; exact absurd this hdm
+  · have ha := h.at_ a
+    have hd : isDead cur (vm.actors a) = false := by simp [isDead, ht]
+    show (if w.doomed a then 0 else w.stor a k) = _
+    have := ha.doomed hd
+    rw [ht] at this
+    simp at this
+    simp [this, ha.stor hd k]
+
+/-- one top-level message: same result in both layers, invariant re-established -/
+theorem msg_refine {P : Life → Prop} {w : SWorld} {vm : VM} (h : Inv P w vm) (m : Msg)
+    (hfresh : ¬ P m.life) :
+    (specMsg w m).1 = (implMsg vm m).1 ∧
+    Inv (fun l => P l ∨ l = m.life) (specMsg w m).2 (implMsg vm m).2 := by
+  have hag := inv_to_agree h m.life hfresh m.entry m.value
+  have hP : (fun l => P l ∨ l = m.life) m.life := Or.inr rfl
+  have hmono : Inv (fun l => P l ∨ l = m.life) w vm := h.mono (fun l hl => Or.inl hl)
+  unfold specMsg implMsg
+  simp only []
+  by_cases hd : w.dead m.entry = true
+  · have hdd : isDead m.life (vm.actors m.entry) = true := by
+      have := (hag.at_ m.entry).dead
+      simp only at this
+      rw [← this]; exact hd
+    simp only [hd, if_true, activate, hdd]
+    exact ⟨by first | rfl | trivial, agree_to_inv hag⟩
+  · simp only [hd, Bool.false_eq_true, if_false]
+    have hd' : ({ w with trans := fun _ _ => 0, bal := credit w.bal m.entry m.value } : SWorld).dead (topCtx m).self = false := by
+      simpa [topCtx] using hd
+    have hm := activate_match (cctx := topCtx m) (body := m.body) hP hag hd'
+      (fun s hs hr => ops_refine hP m.body _ _ _ s [] hs hr)
+    simp only [topCtx] at hm ⊢
+    generalize (specOps _ _ [] m.body).finish = s at hm ⊢
+    generalize activate _ _ _ _ _ = i at hm ⊢
+    obtain ⟨o, w'⟩ := s
+    obtain ⟨o', vm'⟩ := i
+    obtain ⟨ho, hp⟩ := hm
+    simp only at ho hp
+    subst ho
+    cases o with
+    | ret l => exact ⟨rfl, agree_to_inv (hp l rfl).agree⟩
+    | revert l => exact ⟨rfl, hmono⟩
+    | fail => exact ⟨rfl, hmono⟩
+
+/-- any sequence of top-level messages with pairwise distinct, fresh (origin, nonce) -/
+theorem run_refine : ∀ (msgs : List Msg) (P : Life → Prop) (w : SWorld) (vm : VM), Inv P w vm →
+    (∀ m ∈ msgs, ¬ P m.life) → (msgs.map (·.life)).Nodup →
+    (specRun w msgs).1 = (implRun vm msgs).1 ∧ ∃ Q, Inv Q (specRun w msgs).2 (implRun vm msgs).2
+  | [], P, w, vm, h, _, _ => ⟨rfl, P, h⟩
+  | m :: ms, P, w, vm, h, hf, hnd => by
+    obtain ⟨h1, h2⟩ := msg_refine h m (hf m (by simp))
+    have hnd' := List.nodup_cons.mp (show (m.life :: ms.map (·.life)).Nodup from hnd)
+    have hf' : ∀ m' ∈ ms, ¬ (fun l => P l ∨ l = m.life) m'.life := by
+      intro m' hm' hx
+      rcases hx with hx | hx
+      · exact hf m' (by simp [hm']) hx
+      · exact hnd'.1 (by rw [← hx]; exact List.mem_map_of_mem hm')
+    obtain ⟨h3, Q, h4⟩ := run_refine ms _ _ _ h2 hf' hnd'.2
+    simp only [specRun, implRun]
+    exact ⟨by rw [h1, h3], Q, h4⟩
+
+/-- what the invariant says about the observable final state -/
+theorem Inv.observables {P : Life → Prop} {w : SWorld} {vm : VM} (h : Inv P w vm) :
+    (∀ a k, vm.storageAt a k = w.stor a k) ∧ (∀ a, vm.isDestroyed a = w.dead a) ∧
+    vm.bal = w.bal ∧ vm.events = w.logs := by
+  refine ⟨fun a k => ?_, fun a => (h.dead a).symm, h.common.bal.symm, h.common.logs.symm⟩
+  unfold VM.storageAt
+  cases ht : (vm.actors a).tomb with
+  | none => simp [h.stor a ht k]
+  | some t => simp [h.deadStor a (by simp [ht]) k]
+
+/-- the abstraction function: the spec world a (quiescent) implementation state stands for -/
+def VM.abs (vm : VM) : SWorld :=
+  { stor := vm.storageAt, trans := fun _ _ => 0, bal := vm.bal, logs := vm.events,
+    doomed := fun _ => false, dead := vm.isDestroyed }
+
+theorem inv_abs {P : Life → Prop} {vm : VM} (h : ∀ a, LifeOk P (vm.actors a)) : Inv P vm.abs vm := by
+  refine ⟨⟨rfl, rfl, h⟩, fun _ => rfl, fun _ => rfl, fun a ht k => ?_, fun a ht k => ?_⟩
+  · simp [VM.abs, VM.storageAt, ht]
+  · simp [VM.abs, VM.storageAt, ht]
+
+theorem inv_init : Inv (fun _ => False) SWorld.init VM.init := by
+  refine ⟨⟨rfl, rfl, fun a => ⟨fun t ht => by simp [VM.init, PState.empty] at ht, fun m l hl => by simp [VM.init, PState.empty] at hl⟩⟩,
+    fun _ => rfl, fun _ => rfl, fun a ht => by simp [VM.init, PState.empty] at ht, fun a _ k => rfl⟩
+
 end BA.Evm.Storage
